@@ -2,7 +2,7 @@
      <id> s<caseseed> k<0|1> n<N> <node>*N : <op>*     (k1: GC keeps the digest references of live descriptors)
    node = <kind 0..5>,<subject|->,<succ.succ...|->  (kind: 0 blob 1 image 2 docker 3 index 4 dockerl 5 artifact)
    op = P<n> T<n>.<t> U<t> D<n> G R(eopen) F(oreign index + reopen) A<0|1> S<id>.<alg 0 sha256 1 sha512 2 sha384 3 other>.<valid>
-        V<0|1> (AutoSaveIndex)  I (SaveIndex)  B<id> (Push of an undecodable manifest)
+        V<0|1> (AutoSaveIndex)  I (SaveIndex)  B<id> (Push of an undecodable manifest)  Y<n> (Delete of blob n with its octet-stream descriptor)
         Q<k>:<order> (GC whose sweep fails at entry k of the directory order)  Ke (GC cancelled before the index is rebuilt)
         K<k>:<b<n>|s<id>>,... (GC cancelled in the sweep after k entries of the given directory order)
    Output: <id> then, per op, <op>=<res>/B:..../I:..../P:..../S:..../J:....  (see harness/cmd/c09; J = index.json). *)
@@ -69,6 +69,7 @@ let () =
             | 'S' -> (match ints_of '.' arg with [a; k; v] -> PO (OStray { s_id = nat_of_int a; s_alg = nat_of_int k; s_valid = (v = 1) }) | _ -> failwith "S")
             | 'V' -> PAutoSave (arg = "1")
             | 'I' -> PSave
+            | 'Y' -> PDeleteAlt (nat_of_int (int_of_string arg))
             | 'B' -> PPushBad (nat_of_int (int_of_string arg))
             | 'Q' ->
               (match String.split_on_char ':' arg with
